@@ -30,6 +30,23 @@ Proof.
     intros v; apply (q_successor_first sp md sv n w Vs H Hok v).
 Qed.
 
+(* the set-bit iterators (one_iter, and the iterators returned by successor / predecessor / select_iter) under ANY
+   sequence of next() / next_back() calls yield what a double-ended iterator over the reference list yields *)
+Definition iter_queries_ok (sp : selpath) (md : mode) (sv : sparse) (Vs : list N) : Prop :=
+  (forall pat, it_drive md sv pat (sv_one_iter sv) = Ok (deque_run (vs_ranked Vs) pat)) /\
+  (forall r pat, (let* it := sv_select_iter sp md sv r in it_drive md sv pat it) = Ok (deque_run (skipN (vs_ranked Vs) r) pat)) /\
+  (forall v pat, (let* it := sv_predecessor sp md sv v in it_drive md sv pat it) = Ok (deque_run (vs_pred Vs v) pat)) /\
+  (forall v pat, (let* it := sv_successor sp md sv v in it_drive md sv pat it) = Ok (deque_run (vs_succ Vs v) pat)).
+
+Lemma sv_ok_iters sp md sv n w Vs H : sv_ok sp md sv n w Vs H -> iter_queries_ok sp md sv Vs.
+Proof.
+  intros Hok. unfold iter_queries_ok.
+  split; [intros pat; apply (q_one_iter_drive sp md sv n w Vs H Hok pat)|].
+  split; [intros r pat; apply (q_select_iter_drive sp md sv n w Vs H Hok r pat)|].
+  split; [intros v pat; apply (q_predecessor_drive sp md sv n w Vs H Hok v pat)|].
+  intros v pat; apply (q_successor_drive sp md sv n w Vs H Hok v pat).
+Qed.
+
 (* the high part is the unary bucket code *)
 Definition high_code_ok (sp : selpath) (md : mode) (sv : sparse) (n w : N) (Vs : list N) (H : list bool) : Prop :=
   bv_select_ok sp md (sv_high sv) H /\
@@ -67,14 +84,16 @@ Theorem sparse_set_exact sp md w' n P :
     sv_build_set sp md w' n P = Ok (inl sv) /\
     high_code_ok sp md sv n (eff_width w' n (lenN P)) P H /\
     present_queries_ok sp md sv n P /\
-    zero_queries_ok sp md sv n P.
+    zero_queries_ok sp md sv n P /\
+    iter_queries_ok sp md sv P.
 Proof.
   intros Hhc Hn Hw' Hinc Hbel Hfit.
   destruct low_contract_holds as [R [Rnew [Rset Rget]]].
   destruct (build_set_ok sp md Hhc R Rnew Rset Rget w' n P Hn Hw' Hinc Hbel Hfit) as [sv [H [Hb Hok]]].
   exists sv, H. split; [exact Hb|]. split; [apply sv_ok_high; exact Hok|].
   split; [apply (sv_ok_present _ _ _ _ _ _ _ Hok)|].
-  apply (sv_ok_zero _ _ _ _ _ _ _ Hok). apply increasing_sorted. exact Hinc.
+  split; [apply (sv_ok_zero _ _ _ _ _ _ _ Hok); apply increasing_sorted; exact Hinc|].
+  apply (sv_ok_iters _ _ _ _ _ _ _ Hok).
 Qed.
 
 Theorem sparse_multiset_exact sp md w' n Vs :
@@ -84,13 +103,14 @@ Theorem sparse_multiset_exact sp md w' n Vs :
   exists sv H,
     sv_build_multiset sp md w' n Vs = Ok (inl sv) /\
     high_code_ok sp md sv n (eff_width w' n (lenN Vs)) Vs H /\
-    present_queries_ok sp md sv n Vs.
+    present_queries_ok sp md sv n Vs /\
+    iter_queries_ok sp md sv Vs.
 Proof.
   intros Hhc Hn Hw' Hnd Hbel Hfit.
   destruct low_contract_holds as [R [Rnew [Rset Rget]]].
   destruct (build_multiset_ok sp md Hhc R Rnew Rset Rget w' n Vs Hn Hw' Hnd Hbel Hfit) as [sv [H [Hb Hok]]].
   exists sv, H. split; [exact Hb|]. split; [apply sv_ok_high; exact Hok|].
-  apply (sv_ok_present _ _ _ _ _ _ _ Hok).
+  split; [apply (sv_ok_present _ _ _ _ _ _ _ Hok)|apply (sv_ok_iters _ _ _ _ _ _ _ Hok)].
 Qed.
 
 Theorem sparse_try_from_iter_accepts sp md w' Vs :
@@ -99,10 +119,10 @@ Theorem sparse_try_from_iter_accepts sp md w' Vs :
   (forall v, last_opt Vs = Some v -> v + 1 < 2 ^ 64) ->
   let n := match last_opt Vs with Some v => v + 1 | None => 0 end in
   lenN Vs + buckets_of n (eff_width w' n (lenN Vs)) < 2 ^ 64 ->
-  exists sv, sv_try_from_iter sp md w' Vs = Ok (inl sv) /\ present_queries_ok sp md sv n Vs.
+  exists sv, sv_try_from_iter sp md w' Vs = Ok (inl sv) /\ present_queries_ok sp md sv n Vs /\ iter_queries_ok sp md sv Vs.
 Proof.
   intros Hhc Hw' Hnd Hlast n Hfit.
   destruct low_contract_holds as [R [Rnew [Rset Rget]]].
   destruct (try_from_iter_ok sp md Hhc R Rnew Rset Rget w' Vs Hw' Hnd Hlast Hfit) as [sv [H [Hb Hok]]].
-  exists sv. split; [exact Hb|]. apply (sv_ok_present _ _ _ _ _ _ _ Hok).
+  exists sv. split; [exact Hb|]. split; [apply (sv_ok_present _ _ _ _ _ _ _ Hok)|apply (sv_ok_iters _ _ _ _ _ _ _ Hok)].
 Qed.
